@@ -12,3 +12,5 @@ open SSVerif.Align
 #print axioms C04_alignStep_WFTokens
 #print axioms C04_model_run_wfTokens
 #print axioms C04_model_run_hierarchy
+#print axioms C04_word_score_is_acoustic_part_partial
+#print axioms C04_model_run_scores_optimal_partial
